@@ -368,6 +368,45 @@ func (c *Ctx) followWhole(info *types.Info, cl *model.Clause, sw *model.TypeSwit
 	if cl.BoundTo == nil {
 		return
 	}
+	// the node, and the locals of the clause that are assigned something selected from it
+	derived := map[types.Object]bool{cl.BoundTo: true}
+	mentionsDerived := func(e ast.Node) bool {
+		found := false
+		ast.Inspect(e, func(m ast.Node) bool {
+			if id, ok := m.(*ast.Ident); ok && derived[info.Uses[id]] {
+				found = true
+			}
+			return !found
+		})
+		return found
+	}
+	for round := 0; round < 3; round++ {
+		for _, st := range cl.CC.Body {
+			ast.Inspect(st, func(n ast.Node) bool {
+				as, ok := n.(*ast.AssignStmt)
+				if !ok || len(as.Lhs) != len(as.Rhs) {
+					return true
+				}
+				for i, lhs := range as.Lhs {
+					id, ok := lhs.(*ast.Ident)
+					if !ok {
+						continue
+					}
+					if _, isCall := ast.Unparen(as.Rhs[i]).(*ast.CallExpr); isCall {
+						continue // a result computed from the node is not the node
+					}
+					if mentionsDerived(as.Rhs[i]) {
+						if o := info.Defs[id]; o != nil {
+							derived[o] = true
+						} else if o := info.Uses[id]; o != nil {
+							derived[o] = true
+						}
+					}
+				}
+				return true
+			})
+		}
+	}
 	for _, st := range cl.CC.Body {
 		ast.Inspect(st, func(n ast.Node) bool {
 			call, ok := n.(*ast.CallExpr)
@@ -376,12 +415,9 @@ func (c *Ctx) followWhole(info *types.Info, cl *model.Clause, sw *model.TypeSwit
 			}
 			mentions := false
 			for _, a := range call.Args {
-				ast.Inspect(a, func(m ast.Node) bool {
-					if id, ok := m.(*ast.Ident); ok && info.Uses[id] == cl.BoundTo {
-						mentions = true
-					}
-					return !mentions
-				})
+				if mentionsDerived(a) {
+					mentions = true
+				}
 			}
 			if !mentions {
 				return true
